@@ -13,10 +13,20 @@ def freeze_case(r, stage, ending):
     needA, needB = fee_needed(pol, amtA), fee_needed(pol, amtB)
     # A: one fully funded HTLC, advanced `stage` drain steps (0 = ListState not even processed ... up to pay running / waiting)
     a_events = [b.htlc(invA, needA, needA, expiry=3000, rel=pol[2] + 10)] + [{"e": "drain_step", "h": 0}] * stage
-    if stage >= 8:
+    if 8 <= stage < 14:
         a_events += [{"e": "newpart_next", "h": 0}]
-    if stage >= 9:
+    if 9 <= stage < 14:
         a_events += [{"e": "payfin_next", "h": 0, "out": "pending"}] + [{"e": "drain_step", "h": 0}] * (stage - 8)
+    if stage >= 14:
+        # A's pay has ended and A is frozen in its bookkeeping: mark_failed after a failed pay (stages 14-17),
+        # mark_succeeded after a completed one (stages 18-21); k = how many of the bookkeeping steps were still taken
+        k = (stage - 14) % 4
+        a_events = [b.htlc(invA, needA, needA, expiry=3000, rel=pol[2] + 10)] + [{"e": "drain_step", "h": 0}] * 8
+        if stage < 18:
+            a_events += [{"e": "payfin_next", "h": 0, "out": "failed"}]
+        else:
+            a_events += [{"e": "newpart_next", "h": 0}, {"e": "part_next", "h": 0, "st": "done"}, {"e": "payfin_next", "h": 0, "out": "complete"}]
+        a_events += [{"e": "drain_step", "h": 0}] * (1 + k)
     # stragglers for the frozen hash: further HTLCs of A (some violating the policy, twice) arriving while A is stuck
     for k in range(r.below(4)):
         kind = r.below(4)
@@ -59,7 +69,7 @@ def b_view(trace):
 def run(tier, seed):
     o = Outcome("C14", tier, seed)
     T = tier == "thorough"
-    o.rule = ("two payment hashes: A is driven to one of 14 stages of its lifecycle (state fetch unanswered ... bookkeeping writes, pay running, waiting on a part, sitting on its timer) and frozen there "
+    o.rule = ("two payment hashes: A is driven to one of 22 stages of its lifecycle (state fetch unanswered ... pay running, waiting on a part, sitting on its timer, each step of mark_failed after a failed pay and of mark_succeeded after a completed one) and frozen there "
               "(no RPC of A is processed or delivered) while B runs one of 11 payment stories to completion; the same B script is run alone; B's responses, RPC calls, cancels and node replies "
               "must be identical. The two-hash trace is also replayed through the product model (correspondence) and all composite monitors. Non-trivial: A has at least one outstanding "
               "RPC or armed timer while B pays; distinct = (stage, story, seed)")
@@ -72,7 +82,7 @@ def run(tier, seed):
     r = SplitMix64(seed * 101 + 14)
     pairs = []
     for rep in range(4 if T else 1):
-        for stage in range(0, 14):
+        for stage in range(0, 22):
             for ending in (PAY_ENDINGS if T else [PAY_ENDINGS[(stage + i * 4) % len(PAY_ENDINGS)] for i in range(3)]):
                 pairs.append(freeze_case(r.fork(), stage, ending))
     try:
